@@ -635,6 +635,11 @@ func runPath(prog *ssa.Program, cfg *Config, h *Harness, s *Solver, extra []*Sol
 	s.Reset()
 	i.sched = newScheduler(i)
 	res = i.sched.runMain(h.Entry)
+	if res.Kind == "budget" && res.Model == nil {
+		// keep the witness of a path that ran into a loop/step bound: the driver
+		// replays it natively to tell an endless loop from a bound that is too small
+		i.fillModel(res)
+	}
 	if len(i.soft) > 0 && res.Kind != "dropped" {
 		// one or more oracles failed earlier on this path
 		first := i.soft[0]
